@@ -28,6 +28,12 @@ def configs(tier):
                 for p2 in range(1, P + 1):
                     yield dict(name="pair-%s-%s-%d+%d" % (be, kind, p1, p2), what="pair", backend=be, kind=kind,
                                p1=p1, p2=p2, fork=(kind == "lin"), cost=3 ** (p1 + p2))
+                    if p1 <= 2 and p2 <= 2 and be == "py":
+                        # receiver holding integer-valued data (e.g. a PSTH): in the float replays
+                        # numpy builds integer-typed arrays from it
+                        yield dict(name="pair-intrecv-%s-%s-%d+%d" % (be, kind, p1, p2), what="pair", backend=be,
+                                   kind=kind, p1=p1, p2=p2, fork=(kind == "lin"), intrecv=True, validate=12,
+                                   cost=3 ** (p1 + p2))
             ops = ["A0", "A1", "A2", "M", "C"]
             L = 3 if tier == "quick" else 4
             for l in range(1, L + 1):
@@ -57,13 +63,13 @@ def controls(tier):
                mutations=[("pyspike.PieceWiseConstFunc", "        self.y = np.array(y)", "        self.y = np.asarray(y)")])
 
 
-def mkfun(E, tag, P, ts, te, kind):
+def mkfun(E, tag, P, ts, te, kind, integer=False):
     xs = [ts] + [E.fresh("%sx%d" % (tag, i)) for i in range(1, P)] + [te]
     for u, v in zip(xs[:-1], xs[1:]):
         E.assume(u < v)
-    y1 = [E.fresh("%sl%d" % (tag, i)) for i in range(P)]
+    y1 = [E.fresh("%sl%d" % (tag, i), integer=integer) for i in range(P)]
     if kind == "lin":
-        y2 = [E.fresh("%sr%d" % (tag, i)) for i in range(P)]
+        y2 = [E.fresh("%sr%d" % (tag, i), integer=integer) for i in range(P)]
         return pyspike.PieceWiseLinFunc(xs, y1, y2)
     return pyspike.PieceWiseConstFunc(xs, y1)
 
@@ -148,7 +154,7 @@ def program(E, cfg):
     ts, te = hx.edges(E)
     kind = cfg["kind"]
     if cfg["what"] == "pair":
-        f = mkfun(E, "f", cfg["p1"], ts, te, kind)
+        f = mkfun(E, "f", cfg["p1"], ts, te, kind, integer=cfg.get("intrecv", False))
         g = mkfun(E, "g", cfg["p2"], ts, te, kind)
         f0 = f.copy()
         sg = snapshot(g)
